@@ -433,6 +433,126 @@ class C05:
                     c.close()
                     p.cmd("DEL", "wq")
                     p.close()
+        # (d) the server closes the connection itself (QUIT, protocol violation) while replies are still in its buffer and the
+        # client reads late: every reply owed must still arrive, then the close; and QUIT ends the pipeline in every segmentation
+        big = bytes((i * 37 + 11) % 253 for i in range(8 * 1024 * 1024))
+        p0 = self.srv.client(timeout=20.0)
+        p0.cmd("SET", "bigq", big)
+        for tail, tname, last in ((enc([b"QUIT"]), "QUIT", ("s", b"OK")), (b"*x\r\n", "malformed frame", "error")):
+            for lag in (0.0, 0.5):
+                self.rep.evaluations += 1
+                c = self.srv.client(timeout=20.0)
+                c.send_raw(enc([b"GET", b"bigq"]) * 3 + tail)
+                if lag:
+                    time.sleep(lag)
+                why = None
+                try:
+                    for i in range(3):
+                        rp = c.read_reply(timeout=20.0)
+                        if rp != ("b", big):
+                            why = "reply %d of 3 x GET (8 MiB) is not the value (type %s)" % (i + 1, rp[0])
+                            break
+                    if not why:
+                        rp = c.read_reply(timeout=10.0)
+                        if (last == "error" and rp[0] != "e") or (last != "error" and rp != last):
+                            why = "the reply to the %s is %s" % (tname, show_reply(rp)[:60])
+                    if not why:
+                        try:
+                            c.read_reply(timeout=3.0)
+                            why = "something follows the reply to the %s" % tname
+                        except Closed:
+                            pass
+                        except TimeoutError:
+                            why = "the connection was not closed after the %s" % tname
+                except (Closed, OSError):
+                    why = "connection closed before all replies arrived (the write buffer was dropped)"
+                except (TimeoutError, ProtocolError) as e:
+                    why = "reply stream broke: %s" % type(e).__name__
+                self.rep.nontrivial(("close-with-pending", tname, lag > 0, why is None))
+                self.rep.count("blocking.close-with-pending-replies")
+                if why:
+                    self.oracle_failures.append({"commands": [["GET", "bigq"]] * 3 + [[tname]], "segments": [], "tag": "close-with-pending",
+                                                 "why": "3 x GET of 8 MiB then %s in one write, client starts reading after %.1f s: %s" % (tname, lag, why)})
+                c.close()
+        p0.cmd("DEL", "bigq")
+        for cut in (None, 1, 2):
+            self.rep.evaluations += 1
+            parts = [enc([b"SET", b"qa", b"1"]), enc([b"QUIT"]), enc([b"SET", b"qa", b"2"]) + enc([b"ECHO", b"late"])]
+            segs = [b"".join(parts)] if cut is None else [b"".join(parts[:cut]), b"".join(parts[cut:])]
+            c = self.srv.client(timeout=4.0)
+            got = []
+            try:
+                for sg in segs:
+                    c.send_raw(sg)
+                    time.sleep(0.05)
+            except OSError:
+                pass
+            try:
+                while True:
+                    got.append(c.read_reply(timeout=1.0))
+            except (Closed, TimeoutError, ProtocolError, OSError):
+                pass
+            val = p0.cmd("GET", "qa")
+            ok = got == [("s", b"OK"), ("s", b"OK")] and val == ("b", b"1")
+            self.rep.nontrivial(("quit-mid-pipeline", cut, ok))
+            if not ok:
+                self.oracle_failures.append({"commands": [["SET", "qa", "1"], ["QUIT"], ["SET", "qa", "2"], ["ECHO", "late"]], "segments": [hx(x) for x in segs], "tag": "quit-mid-pipeline",
+                                             "why": "QUIT ends the conversation in every segmentation: got replies %s and qa = %s (want +OK +OK and 1)" % ([show_reply(g)[:20] for g in got], show_reply(val))})
+            c.close()
+        # (e) a malformed frame behind a blocking pop that blocks: the commands before it are still carried out and answered, in order
+        for seg2 in (False, True):
+            self.rep.evaluations += 1
+            c = self.srv.client(timeout=4.0)
+            mk = b"mk%d" % self.rep.evaluations
+            head = enc([b"BLPOP", b"pe:q", b"0.3"]) + enc([b"SET", b"pe:m", mk]) + enc([b"ECHO", mk])
+            if seg2:
+                c.send_raw(head)
+                time.sleep(0.05)
+                c.send_raw(b"*x\r\n")
+            else:
+                c.send_raw(head + b"*x\r\n")
+            ok = expect("error-behind-blocking-pop", c, [NIL, ("s", b"OK"), ("b", mk), None],
+                        "BLPOP that times out | SET | ECHO | malformed frame (%s)" % ("two writes" if seg2 else "one write"),
+                        [["BLPOP", "pe:q", "0.3"], ["SET", "pe:m", mk.decode()], ["ECHO", mk.decode()], ["<*x>"]]) if False else None
+            got, why = [], None
+            try:
+                for _ in range(4):
+                    got.append(c.read_reply(timeout=3.0))
+            except (Closed, OSError):
+                why = "closed after %d of 4 replies" % len(got)
+            except TimeoutError:
+                why = "only %d of 4 replies" % len(got)
+            except ProtocolError as e:
+                why = "malformed: %s" % str(e)[:60]
+            if not why and not (got[0] == NIL and got[1] == ("s", b"OK") and got[2] == ("b", mk) and got[3][0] == "e"):
+                why = "replies are %s" % [show_reply(g)[:24] for g in got]
+            if not why and p0.cmd("GET", "pe:m") != ("b", mk):
+                why = "the SET before the malformed frame was not carried out"
+            self.rep.nontrivial(("error-behind-blocking-pop", seg2, why is None))
+            if why:
+                self.oracle_failures.append({"commands": [["BLPOP", "pe:q", "0.3"], ["SET", "pe:m", mk.decode()], ["ECHO", mk.decode()], ["<malformed frame *x>"]], "segments": [], "tag": "error-behind-blocking-pop",
+                                             "why": "BLPOP that times out | SET | ECHO | malformed frame in %s: %s (want *-1, +OK, the echo, an error, close)" % ("two writes" if seg2 else "one write", why)})
+            c.close()
+        # (f) handlers that write straight into the buffer must not overtake earlier replies, however the name is spelled
+        for name in (b" SUBSCRIBE", b"subscribe\n", b"\tPSUBSCRIBE", b"UNSUBSCRIBE ", b"PUNSUBSCRIBE\r\n", b"SUBSCRIBE", b"psubscribe", b"SYNC", b"PSYNC"):
+            self.rep.evaluations += 1
+            c = self.srv.client(timeout=4.0)
+            mk = b"first%d" % self.rep.evaluations
+            args = [name, b"?", b"-1"] if name.strip().upper() == b"PSYNC" else ([name] if name.strip().upper() == b"SYNC" else [name, b"och"])
+            c.send_raw(enc([b"ECHO", mk]) + enc(args))
+            why = None
+            try:
+                rp = c.read_reply(timeout=3.0)
+                if rp != ("b", mk):
+                    why = "the first frame received is %s, not the reply to the ECHO sent first" % show_reply(rp)[:60]
+            except (Closed, TimeoutError, ProtocolError, OSError) as e:
+                why = "no reply to the ECHO sent first (%s)" % type(e).__name__
+            self.rep.nontrivial(("direct-writer-order", name.strip().upper(), name != name.strip(), why is None))
+            if why:
+                self.oracle_failures.append({"commands": [["ECHO", mk.decode()], [a.decode("latin-1") for a in args]], "segments": [], "tag": "direct-writer-order",
+                                             "why": "ECHO then %r in one write: %s" % (name, why)})
+            c.close()
+        p0.close()
         # (c) client text in line-type replies produced by scripts
         c = self.srv.client(timeout=4.0)
         evil = b"done\r\n+injected\r\n:42"
